@@ -130,9 +130,9 @@ def sink_items(phys, j):
     return [a, b]
 
 
-def grouped_ser(n1: int, n2: int, n3: int, lt: int) -> bool:
+def grouped_ser(n1: int, n2: int, n3: int, lt: int, dfs: int) -> bool:
     """
-    pre: 0 <= n1 <= 2 and 0 <= n2 <= 2 and 0 <= n3 <= 2 and 0 <= lt < len(GROUPED_LT[P["phys"]])
+    pre: 0 <= n1 <= 2 and 0 <= n2 <= 2 and 0 <= n3 <= 2 and 0 <= lt < len(GROUPED_LT[P["phys"]]) and dfs >= 1
     post: _
     """
     # grouped serialisation with a grouped logical type: one shared stream, exactly one statement-carrying frame
@@ -141,10 +141,20 @@ def grouped_ser(n1: int, n2: int, n3: int, lt: int) -> bool:
     try:
         ns = [alpha.pick(n, [0, 1, 2]) for n in (n1, n2, n3)]
         ltv = alpha.pick(lt, GROUPED_LT[phys])
+        # the library's DEFAULT_FRAME_SIZE constant (250) is made a symbolic integer: grouped flows must not depend on it
+        from pyjelly.serialize import flows as _flows
+        _saved_default = _flows.DEFAULT_FRAME_SIZE
+        _flows.DEFAULT_FRAME_SIZE = dfs
         sinks_items = [sink_items(phys, j)[:k] for j, k in enumerate(ns)]
         if not any(sinks_items):
             return True
         opts = pj.make_options(phys, logical=ltv, generalized=False, rdf_star=False, prefixes=P.get("prefixes", 4), datatypes=2)
+        ds_input = bool(P.get("dataset_input"))
+        if ds_input:
+            # rdflib Datasets handed to a TripleStream with a GRAPHS-family logical type: one frame per graph of each dataset
+            qsp = alpha.RSPINES[2]
+            sinks_q = [[qsp[(j + i) % len(qsp)] for i in range(k)] for j, k in enumerate(ns)]
+            sinks_items = sinks_q
         if integ == "generic":
             from pyjelly.integrations.generic import serialize as gs
             sinks = [pj.gen_sink(its) for its in sinks_items]
@@ -156,7 +166,7 @@ def grouped_ser(n1: int, n2: int, n3: int, lt: int) -> bool:
         else:
             from pyjelly.integrations.rdflib import serialize as rs
             with notrace():
-                stores = [pj.rdf_store(its) if its else (__import__("rdflib").Graph() if phys == 1 else __import__("rdflib").Dataset()) for its in sinks_items]
+                stores = [pj.rdf_store(its) if its else (__import__("rdflib").Graph() if (phys == 1 and not ds_input) else __import__("rdflib").Dataset()) for its in sinks_items]
             if phys == 3:
                 stream = pj.PHYS_STREAM[3].for_rdflib(opts)
                 frames = [f for s in stores for f in rs.stream_frames(stream, s)]
@@ -171,6 +181,14 @@ def grouped_ser(n1: int, n2: int, n3: int, lt: int) -> bool:
                 per.append([norm_item(i) for i in dec.items[before:]])
             carrying = [p for p in per if p]
             nonempty = [[norm_item(i) for i in its] for its in sinks_items if its]
+            if ds_input:
+                # expected: per dataset, per graph (in the dataset's own graph order) one frame with that graph's triples
+                nonempty = []
+                for st in stores:
+                    for g in st.graphs():
+                        ts = [("T",) + tuple(pj.terms.from_rdflib(y) for y in t) for t in g]
+                        if ts:
+                            nonempty.append([norm_item(i) for i in ts])
             if integ == "rdflib":
                 ok = len(carrying) == len(nonempty) and all(sorted(map(repr, a)) == sorted(map(repr, set(b))) for a, b in zip(carrying, nonempty))
             else:
@@ -179,5 +197,12 @@ def grouped_ser(n1: int, n2: int, n3: int, lt: int) -> bool:
         if P.get("twin"):
             ok = False
     except Exception:  # noqa: BLE001
+        if __import__("os").environ.get("VP_DEBUG"):
+            __import__("traceback").print_exc()
         ok = False
-    return fin(M, ok, n1=n1, n2=n2, n3=n3, lt=lt)
+    finally:
+        try:
+            _flows.DEFAULT_FRAME_SIZE = _saved_default
+        except Exception:  # noqa: BLE001
+            pass
+    return fin(M, ok, n1=n1, n2=n2, n3=n3, lt=lt, dfs=dfs)
